@@ -213,16 +213,16 @@ theorem repeating_only_resource_exhausted (fin : Bool) (c : Cfg) (s : St) (i : I
       unfold repeatingRestart
       repeat' split
       all_goals simp_all
-  have h2 : (ctrlRestart c (exit c s i.reason) i).2 = .initiated := by
-    unfold step stepWith at h
+  have h2 : (ctrlRestart c (arrive c s i) i).2 = .initiated := by
+    unfold step stepWith stepGen at h
     simp only [] at h
     split at h <;> simp_all
   unfold ctrlRestart at h2
   repeat' split at h2
   all_goals first
     | (simp at h2; done)
-    | (apply key (exit c s i.reason)
-       generalize compRestart false c (exit c s i.reason) i = r at h2
+    | (apply key (arrive c s i)
+       generalize compRestart false c (arrive c s i) i = r at h2
        obtain ⟨a, b⟩ := r
        cases b <;> simp_all [guarded])
 /-! ## The cap on consecutive re-submissions -/
@@ -261,6 +261,56 @@ theorem consecutive_resubmissions_le_five (fin : Bool) (c : Cfg) (pre win : List
   have := resubmission_cap fin c St.init pre win (by simp [St.init]) hw
   rw [pin_resubmission_cap] at this; exact this
 
+
+/-! ## Task creation does not end a streak of failed submissions -/
+
+/-- The `taskCreated` event (`SetLaunchTime` after the backend accepted the task) changes no counter. -/
+theorem task_creation_keeps_counters (c : Cfg) (s : St) :
+    (taskCreated c s).resub = s.resub ∧ (taskCreated c s).restarts = s.restarts ∧
+    (taskCreated c s).runs = s.runs ∧ (taskCreated c s).shutdown = s.shutdown := ⟨rfl, rfl, rfl, rfl⟩
+
+/-- From the launch to the exit the streak counter is reset by nothing but a successful task: not by the
+creation of a Task object, not by a launch that raises, not by any other exit reason. -/
+theorem streak_reset_only_by_success (c : Cfg) (s : St) (i : Inp) (h : i.reason ≠ .success) :
+    (arrive c s i).resub = s.resub :=
+  (arrive_fields c s i).2.2.2.2 h
+
+/-- number of initiated re-submissions after failed submissions in a list of events -/
+def resubCount (evs : List Ev) : Nat := (evs.filter Ev.isResub).length
+
+/-- `resubmissions_without_success_le_cap`: in any stretch of a history in which no task succeeds — whether
+the Task objects were created fine and then REPORTED SubmissionFailed (`launch = .task`), or the task generator
+raised, whatever other failures, refused restarts and hook answers lie in between — the number of initiated
+re-submissions plus the counter at the start of the stretch never exceeds the cap. -/
+theorem resubmissions_without_success_le_cap (fin : Bool) (c : Cfg) (s : St) (win : List Inp)
+    (h0 : s.resub ≤ cap) (hns : ∀ i ∈ win, i.reason ≠ .success) :
+    s.resub + resubCount (exec fin c s win) ≤ cap := by
+  induction win generalizing s with
+  | nil => simpa [exec_nil, resubCount] using h0
+  | cons i is ih =>
+    have hk := step_ok fin c s i
+    have hne : i.reason ≠ .success := hns i (List.mem_cons_self)
+    have h1 := hk.resub_inv h0
+    have := ih (step fin c s i).1 h1 (fun j hj => hns j (List.mem_cons_of_mem _ hj))
+    rw [exec_cons]
+    simp only [resubCount, List.filter_cons] at this ⊢
+    split
+    · rename_i h
+      simp only [Ev.isResub, Bool.and_eq_true, decide_eq_true_eq] at h
+      have := hk.resub_window h.2 h.1
+      simp only [List.length_cons]; omega
+    · have := hk.resub_keep hne; omega
+
+/-- … from the start of a component's life, after any prefix: never more than five re-submissions until a task
+succeeds, task creation events included. -/
+theorem at_most_five_resubmissions_until_success (fin : Bool) (c : Cfg) (pre win : List Inp)
+    (hns : ∀ i ∈ win, i.reason ≠ .success) :
+    resubCount (exec fin c (final fin c St.init pre) win) ≤ 5 := by
+  have h1 := resub_invariant fin c St.init pre (by simp [St.init])
+  have := resubmissions_without_success_le_cap fin c _ win h1 hns
+  have hc : cap = 5 := pin_resubmission_cap
+  omega
+
 /-! ## A refused restart is final -/
 
 /-- `refused_then_final`: under `postMortemCheck`, any answer other than RestartInitiated gives the
@@ -294,9 +344,9 @@ theorem refused_is_definitive (c : Cfg) (s : St) (i : Inp) (rest : List Inp)
 
 /-! ## Non-vacuity: the hypotheses are met by concrete, non-trivial inputs -/
 
-private def hookYes : Inp := ⟨.knownIssue, .ctx .possible, false, false, true⟩
-private def hookNo : Inp := ⟨.knownIssue, .ctx .notPossible, false, false, true⟩
-private def subFailed : Inp := ⟨.submissionFailed, .junk, false, false, true⟩
+private def hookYes : Inp := ⟨.knownIssue, .ctx .possible, false, false, true, .task⟩
+private def hookNo : Inp := ⟨.knownIssue, .ctx .notPossible, false, false, true, .task⟩
+private def subFailed : Inp := ⟨.submissionFailed, .junk, false, false, true, .task⟩
 private def cfgDefault : Cfg := ⟨none, false, [.knownIssue], false, false, .scripted⟩
 private def cfgListsSF : Cfg := ⟨some 2, false, [.submissionFailed, .knownIssue], false, false, .scripted⟩
 
@@ -312,6 +362,14 @@ example : (exec false cfgListsSF St.init (List.replicate 7 subFailed)).map (·.c
     [.initiated, .initiated, .initiated, .initiated, .initiated, .maxAttemptsExceeded, .maxAttemptsExceeded] := by decide
 example : ∀ e ∈ exec false cfgListsSF (final false cfgListsSF St.init [hookYes]) (List.replicate 5 subFailed),
     e.isResub = true := by decide
+/-- tasks that are created fine and then report SubmissionFailed: five re-submissions, the sixth exit is refused and
+(real controller) the component gets its final state; a launch that raises in between does not change that -/
+example : (exec true cfgDefault St.init (List.replicate 7 subFailed)).map (fun e => (e.code, e.st.resub, e.st.shutdown)) =
+    [(.initiated, 1, false), (.initiated, 2, false), (.initiated, 3, false), (.initiated, 4, false),
+     (.initiated, 5, false), (.maxAttemptsExceeded, 5, true), (.maxAttemptsExceeded, 5, true)] := by decide
+example : resubCount (exec false cfgDefault St.init
+    [subFailed, { subFailed with launch := .submitError }, hookYes, subFailed, subFailed, hookNo, subFailed, subFailed]) = 5 := by
+  decide
 /-- the real controller stops at the first refusal -/
 example : (exec true cfgDefault St.init [hookYes, hookNo, hookYes]).map (fun e => (e.code, e.st.shutdown, e.st.runs)) =
     [(.initiated, false, 1), (.couldNotInitiate, true, 1), (.couldNotInitiate, true, 1)] := by decide
